@@ -7,10 +7,14 @@ Line protocol of the Repeat model (parsing / printing only).
 ```
 repeat reset <name> <etype> <interval µs> <count|n> [<name2> <etype2> <interval2> <count2|n>]
                                          -> ok | err ValueError     (second group: a chain of two)
-repeat event <t µs> <B|T|A> <etype> <data> <flags|->   -> log <t>@<etype>@<data>|… out <o1> [<o2>]
-repeat advance <t µs> <flags|->                           -> same
+repeat event <t µs> <B|T|A> <x|d> <etype> <data> <flags|-> <answers|->
+                                  -> log <t>@<etype>@<data>[!u|!e]|… out <o1> [<o2>] <run|end> ret <ok|u|e|notready>
+repeat advance <t µs> <flags|-> <answers|->            -> log … out … <run|end>
 repeat stop                                               -> ok
 ```
+`x`: sent with `ExtEvent.send` (needs a running simulation), `d`: `block.event()` called directly;
+`answers`: a string over `o`/`u`/`e` – what the destination answers to the deliveries of this step
+(accepted / EdzedUnknownEvent / another exception), all of them must be consumed;
 names and types are `s<hex>` values, `flags` a string over `a`/`b` (one recorded choice per
 repetition sent by the upstream block of a chain: `a` = the downstream timeout came first)
 -/
@@ -48,17 +52,45 @@ def parseCfg (n e i k : String) : Option (Option Cfg) :=
   | some n, some e, some i, some k => some (Cfg.make? n e i k)
   | _, _, _, _ => none
 
+def parseAnswers (s : String) : Option (List Resp) :=
+  if s == "-" then some []
+  else s.toList.mapM fun c =>
+    if c == 'o' then some Resp.ok else if c == 'u' then some Resp.unknown
+    else if c == 'e' then some Resp.fatal else none
+
+def parseExt : String → Option Bool
+  | "x" => some true
+  | "d" => some false
+  | _ => none
+
+def renderResp : Resp → String
+  | .ok => ""
+  | .unknown => "!u"
+  | .fatal => "!e"
+
+def renderRet : Ret → String
+  | .ok => "ok"
+  | .unknown => "u"
+  | .fatal => "e"
+  | .notReady => "notready"
+
+def renderRun (s : State) : String := if s.stopped then "end" else "run"
+
 def renderSent (x : Sent) : String :=
-  s!"{x.t}@{(Val.str x.etype).render}@{Data.render x.data}"
+  s!"{x.t}@{(Val.str x.etype).render}@{Data.render x.data}{renderResp x.resp}"
 
 def renderLog (xs : List Sent) : String :=
   if xs.isEmpty then "log -" else "log " ++ "|".intercalate (xs.map renderSent)
 
-def reply1 (d : DState) (r : State × List Sent) : DState × String :=
-  ({ d with s := r.1 }, s!"{renderLog r.2} out {r.1.out}")
+/-- all scripted answers must have been consumed -/
+def reply1 (d : DState) (r : State × List Sent) (ret : String) : DState × String :=
+  if r.1.resp.isEmpty then
+    ({ d with s := r.1 }, s!"{renderLog r.2} out {r.1.out} {renderRun r.1}{ret}")
+  else (d, "err IllegalChoice")
 
-def reply2 (d : DState) : Option (Chain × List Sent) → DState × String
-  | some r => ({ d with ch := r.1 }, s!"{renderLog r.2} out {r.1.s1.out} {r.1.s2.out}")
+def reply2 (d : DState) (ret : String) : Option (Chain × List Sent) → DState × String
+  | some r => ({ d with ch := r.1 },
+      s!"{renderLog r.2} out {r.1.s1.out} {r.1.s2.out} {renderRun r.1.s1}{ret}")
   | none => (d, "err IllegalChoice")
 
 def handle (d : DState) : List String → DState × String
@@ -72,20 +104,32 @@ def handle (d : DState) : List String → DState × String
     | some (some c), some (some c2) => ({ c1 := c, c2 := some c2 }, "ok")
     | some _, some _ => (d, "err ValueError")
     | _, _ => (d, "bad-op")
-  | ["event", t, pl, e, data, fl] =>
-    match t.toNat?, parsePlacement pl, parseStr e, Data.parse data, parseFlags fl with
-    | some t, some pl, some e, some data, some fl =>
+  | ["event", t, pl, x, e, data, fl, an] =>
+    match t.toNat?, parsePlacement pl, parseExt x, parseStr e, Data.parse data, parseFlags fl,
+        parseAnswers an with
+    | some t, some pl, some x, some e, some data, some fl, some an =>
       match d.c2 with
-      | none => if fl.isEmpty then reply1 d (event d.c1 d.s t pl e data) else (d, "err IllegalChoice")
-      | some c2 => reply2 d (Chain.event d.c1 c2 d.ch t pl e data fl)
-    | _, _, _, _, _ => (d, "bad-op")
-  | ["advance", t, fl] =>
-    match t.toNat?, parseFlags fl with
-    | some t, some fl =>
+      | none =>
+        if fl.isEmpty then
+          let r := deliver d.c1 { d.s with resp := an } t pl e data x
+          reply1 d (r.1, r.2.1) (" ret " ++ renderRet r.2.2)
+        else (d, "err IllegalChoice")
+      | some c2 =>
+        -- chains are explored with an accepting destination and a running simulation only
+        if an.isEmpty && !(x && d.ch.s1.stopped) then
+          reply2 d " ret ok" (Chain.event d.c1 c2 d.ch t pl e data fl)
+        else (d, "err IllegalChoice")
+    | _, _, _, _, _, _, _ => (d, "bad-op")
+  | ["advance", t, fl, an] =>
+    match t.toNat?, parseFlags fl, parseAnswers an with
+    | some t, some fl, some an =>
       match d.c2 with
-      | none => if fl.isEmpty then reply1 d (advance d.c1 d.s t) else (d, "err IllegalChoice")
-      | some c2 => reply2 d (Chain.advance d.c1 c2 d.ch t fl)
-    | _, _ => (d, "bad-op")
+      | none =>
+        if fl.isEmpty then reply1 d (advance d.c1 { d.s with resp := an } t) ""
+        else (d, "err IllegalChoice")
+      | some c2 =>
+        if an.isEmpty then reply2 d "" (Chain.advance d.c1 c2 d.ch t fl) else (d, "err IllegalChoice")
+    | _, _, _ => (d, "bad-op")
   | ["stop"] => ({ d with s := stop d.s, ch := d.ch.stop }, "ok")
   | _ => (d, "bad-op")
 
